@@ -104,6 +104,16 @@ impl PlainBlobStore {
         &self.base_dir
     }
 
+    /// The record ID a file name stands for: only the decimal rendering `file_path` produces names a
+    /// record. `u32::from_str` also accepts "007" or "+7", but `get(7)` reads the file "7", so such a
+    /// name would be listed as a record that cannot be read (or shadow the real record 7).
+    fn record_id_of(filename: &str) -> Option<RecordId> {
+        filename
+            .parse::<u32>()
+            .ok()
+            .filter(|id| id.to_string() == filename)
+    }
+
     /// Scan directory to find existing blobs and calculate next ID
     fn scan_directory(base_dir: &Path) -> Result<(u32, BlobStoreStats)> {
         let mut max_id = 0u32;
@@ -126,7 +136,7 @@ impl PlainBlobStore {
             let filename_str = filename.to_string_lossy();
 
             // Try to parse filename as record ID
-            if let Ok(id) = filename_str.parse::<u32>() {
+            if let Some(id) = Self::record_id_of(&filename_str) {
                 max_id = max_id.max(id);
 
                 // Get file size for stats
@@ -177,7 +187,7 @@ impl PlainBlobStore {
             let filename_str = filename.to_string_lossy();
 
             // Try to parse filename as record ID
-            if let Ok(id) = filename_str.parse::<u32>() {
+            if let Some(id) = Self::record_id_of(&filename_str) {
                 if entry.path().is_file() {
                     ids.push(id);
                 }
